@@ -124,7 +124,7 @@ def parse_pdb(text):
     for line in text.splitlines():
         rec = line[:6].strip()
         if rec in ('ATOM', 'HETATM'):
-            cur.append({'serial': line[6:11], 'name': line[12:16].strip(), 'resname': line[17:21].strip(),
+            cur.append({'serial': line[6:11], 'name': line[12:16].strip(), 'resname': line[17:20].strip(),
                         'chain': line[21], 'resid': int(line[22:26]), 'icode': line[26],
                         'xyz': (float(line[30:38]), float(line[38:46]), float(line[46:54]))})
         elif rec in ('TER', 'END', 'ENDMDL'):
@@ -377,7 +377,7 @@ def evaluate_outputs(child, argv, stats):
                        actual='%d coordinate records for molecule %d' % (len(atoms), j))
             continue
         for k, (rec, tokens) in enumerate(zip(atoms, itp['atoms'])):
-            want = (tokens[4][:4], tokens[3][:4], int(tokens[2]) % 10000)
+            want = (tokens[4][:4], tokens[3][:3], int(tokens[2]) % 10000)
             got = (rec['name'], rec['resname'], rec['resid'] % 10000)
             if want != got:
                 child.fail('C03', 'atom-for-atom', expected={'itp': want, 'molecule': j, 'atom': k + 1, 'moltype': name},
